@@ -18,112 +18,136 @@ type c07Getter struct {
 	typ  uint16 // attribute type read
 	kind int    // 0 plain, 1 integrity, 2 fingerprint
 	addr bool   // value is an address: bias the first bytes to family codes
-	run  func(m *stun.Message, key []byte) (string, error)
+	run  func(m *stun.Message, key []byte, dirty bool) (string, error)
+}
+
+// dirtyIP is a destination that "held something before": 16 stale bytes (nil for a fresh receiver).
+func dirtyIP(dirty bool) net.IP {
+	if !dirty {
+		return nil
+	}
+
+	return net.IP{0xEE, 0xEE, 0xEE, 0xEE, 0xEE, 0xEE, 0xEE, 0xEE, 0xEE, 0xEE, 0xEE, 0xEE, 0xEE, 0xEE, 0xEE, 0xEE}
 }
 
 func ipOut(ip net.IP, port int) string { return fmt.Sprintf("%x:%d", []byte(ip), port) }
 
 func c07Getters() []c07Getter {
 	return []c07Getter{
-		{"XORMappedAddress.GetFrom", 0x0020, 0, true, func(m *stun.Message, _ []byte) (string, error) {
+		{"XORMappedAddress.GetFrom", 0x0020, 0, true, func(m *stun.Message, _ []byte, dirty bool) (string, error) {
 			var a stun.XORMappedAddress
+			a.IP, a.Port = dirtyIP(dirty), 7
 			err := a.GetFrom(m)
 
 			return ipOut(a.IP, a.Port), err
 		}},
-		{"XORMappedAddress.GetFromAs(XOR-PEER)", 0x0012, 0, true, func(m *stun.Message, _ []byte) (string, error) {
+		{"XORMappedAddress.GetFromAs(XOR-PEER)", 0x0012, 0, true, func(m *stun.Message, _ []byte, dirty bool) (string, error) {
 			a := stun.XORMappedAddress{IP: make(net.IP, 0, 16)}
+			if dirty {
+				a.IP = dirtyIP(true)[:4]
+			}
 			err := a.GetFromAs(m, stun.AttrXORPeerAddress)
 
 			return ipOut(a.IP, a.Port), err
 		}},
-		{"MappedAddress.GetFrom", 0x0001, 0, true, func(m *stun.Message, _ []byte) (string, error) {
+		{"MappedAddress.GetFrom", 0x0001, 0, true, func(m *stun.Message, _ []byte, dirty bool) (string, error) {
 			var a stun.MappedAddress
+			a.IP = dirtyIP(dirty)
 			err := a.GetFrom(m)
 
 			return ipOut(a.IP, a.Port), err
 		}},
-		{"MappedAddress.GetFromAs(0x7e01)", 0x7e01, 0, true, func(m *stun.Message, _ []byte) (string, error) {
+		{"MappedAddress.GetFromAs(0x7e01)", 0x7e01, 0, true, func(m *stun.Message, _ []byte, dirty bool) (string, error) {
 			a := stun.MappedAddress{IP: make(net.IP, 4, 16)}
 			err := a.GetFromAs(m, 0x7e01)
 
 			return ipOut(a.IP, a.Port), err
 		}},
-		{"AlternateServer.GetFrom", 0x8023, 0, true, func(m *stun.Message, _ []byte) (string, error) {
+		{"AlternateServer.GetFrom", 0x8023, 0, true, func(m *stun.Message, _ []byte, dirty bool) (string, error) {
 			var a stun.AlternateServer
+			a.IP = dirtyIP(dirty)
 			err := a.GetFrom(m)
 
 			return ipOut(a.IP, a.Port), err
 		}},
-		{"ResponseOrigin.GetFrom", 0x802b, 0, true, func(m *stun.Message, _ []byte) (string, error) {
+		{"ResponseOrigin.GetFrom", 0x802b, 0, true, func(m *stun.Message, _ []byte, dirty bool) (string, error) {
 			var a stun.ResponseOrigin
+			a.IP = dirtyIP(dirty)
 			err := a.GetFrom(m)
 
 			return ipOut(a.IP, a.Port), err
 		}},
-		{"OtherAddress.GetFrom", 0x802c, 0, true, func(m *stun.Message, _ []byte) (string, error) {
+		{"OtherAddress.GetFrom", 0x802c, 0, true, func(m *stun.Message, _ []byte, dirty bool) (string, error) {
 			var a stun.OtherAddress
+			a.IP = dirtyIP(dirty)
 			err := a.GetFrom(m)
 
 			return ipOut(a.IP, a.Port), err
 		}},
-		{"Username.GetFrom", 0x0006, 0, false, func(m *stun.Message, _ []byte) (string, error) {
+		{"Username.GetFrom", 0x0006, 0, false, func(m *stun.Message, _ []byte, dirty bool) (string, error) {
 			var a stun.Username
 			err := a.GetFrom(m)
 
 			return fmt.Sprintf("%x", []byte(a)), err
 		}},
-		{"Realm.GetFrom", 0x0014, 0, false, func(m *stun.Message, _ []byte) (string, error) {
+		{"Realm.GetFrom", 0x0014, 0, false, func(m *stun.Message, _ []byte, dirty bool) (string, error) {
 			var a stun.Realm
 			err := a.GetFrom(m)
 
 			return fmt.Sprintf("%x", []byte(a)), err
 		}},
-		{"Nonce.GetFrom", 0x0015, 0, false, func(m *stun.Message, _ []byte) (string, error) {
+		{"Nonce.GetFrom", 0x0015, 0, false, func(m *stun.Message, _ []byte, dirty bool) (string, error) {
 			var a stun.Nonce
 			err := a.GetFrom(m)
 
 			return fmt.Sprintf("%x", []byte(a)), err
 		}},
-		{"Software.GetFrom", 0x8022, 0, false, func(m *stun.Message, _ []byte) (string, error) {
+		{"Software.GetFrom", 0x8022, 0, false, func(m *stun.Message, _ []byte, dirty bool) (string, error) {
 			var a stun.Software
 			err := a.GetFrom(m)
 
 			return fmt.Sprintf("%x", []byte(a)), err
 		}},
-		{"ErrorCodeAttribute.GetFrom", 0x0009, 0, false, func(m *stun.Message, _ []byte) (string, error) {
+		{"ErrorCodeAttribute.GetFrom", 0x0009, 0, false, func(m *stun.Message, _ []byte, dirty bool) (string, error) {
 			var a stun.ErrorCodeAttribute
+			if dirty {
+				a = stun.ErrorCodeAttribute{Code: 777, Reason: []byte("stale reason")}
+			}
 			err := a.GetFrom(m)
 
 			return fmt.Sprintf("%d:%x", a.Code, a.Reason), err
 		}},
-		{"UnknownAttributes.GetFrom", 0x000A, 0, false, func(m *stun.Message, _ []byte) (string, error) {
+		{"UnknownAttributes.GetFrom", 0x000A, 0, false, func(m *stun.Message, _ []byte, dirty bool) (string, error) {
 			var a stun.UnknownAttributes
+			if dirty {
+				a = stun.UnknownAttributes{0x7777, 0x7778, 0x7779}
+			}
 			err := a.GetFrom(m)
 
 			return fmt.Sprint([]stun.AttrType(a)), err
 		}},
-		{"Message.Get", 0x0024, 0, false, func(m *stun.Message, _ []byte) (string, error) {
+		{"Message.Get", 0x0024, 0, false, func(m *stun.Message, _ []byte, dirty bool) (string, error) {
 			v, err := m.Get(0x0024)
 
 			return fmt.Sprintf("%x", v), err
 		}},
-		{"Message.Parse(Software,XORMappedAddress)", 0x0020, 0, true, func(m *stun.Message, _ []byte) (string, error) {
+		{"Message.Parse(Software,XORMappedAddress)", 0x0020, 0, true, func(m *stun.Message, _ []byte, dirty bool) (string, error) {
 			var (
 				s stun.Software
 				a stun.XORMappedAddress
 			)
+			a.IP = dirtyIP(dirty)
 			err := m.Parse(&s, &a)
 
 			return fmt.Sprintf("%x|%s", []byte(s), ipOut(a.IP, a.Port)), err
 		}},
-		{"MessageIntegrity.Check", 0x0008, 1, false, func(m *stun.Message, key []byte) (string, error) {
+		{"MessageIntegrity.Check", 0x0008, 1, false, func(m *stun.Message, key []byte, _ bool) (string, error) {
 			return "", stun.MessageIntegrity(key).Check(m)
 		}},
-		{"Fingerprint.Check", 0x8028, 2, false, func(m *stun.Message, _ []byte) (string, error) {
+		{"Fingerprint.Check", 0x8028, 2, false, func(m *stun.Message, _ []byte, dirty bool) (string, error) {
 			return "", stun.Fingerprint.Check(m)
 		}},
-		{"Message.Check(Fingerprint,MessageIntegrity)", 0x8028, 2, false, func(m *stun.Message, key []byte) (string, error) {
+		{"Message.Check(Fingerprint,MessageIntegrity)", 0x8028, 2, false, func(m *stun.Message, key []byte, _ bool) (string, error) {
 			return "", m.Check(stun.Fingerprint, stun.MessageIntegrity(key))
 		}},
 	}
@@ -188,7 +212,7 @@ func (o c07Outcome) String() string {
 	return "value: " + o.out
 }
 
-func c07Run(g c07Getter, wire []byte, extra, fill int, key []byte, r *gen.Rand) (c07Outcome, string) {
+func c07Run(g c07Getter, wire []byte, extra, fill int, key []byte, r *gen.Rand, dirty bool) (c07Outcome, string) {
 	var buf []byte
 	if extra == 0 {
 		buf = make([]byte, len(wire))
@@ -204,7 +228,7 @@ func c07Run(g c07Getter, wire []byte, extra, fill int, key []byte, r *gen.Rand) 
 	before := viewOf(m)
 	var o c07Outcome
 	var err error
-	p, stack := safely(func() { o.out, err = g.run(m, key) })
+	p, stack := safely(func() { o.out, err = g.run(m, key, dirty) })
 	if p != nil {
 		o.panicked = fmt.Sprint(p) + "\n" + stack
 
@@ -340,8 +364,8 @@ func c07One(c *core.Ctx, r *gen.Rand, g c07Getter, length, posA, extraA int) {
 		wireA, _, fillA = mk(true, posA)
 		wireB, _, fillB = mk(false, posB)
 	}
-	oa, badA := c07Run(g, wireA, extraA, fillA, key, r)
-	ob, badB := c07Run(g, wireB, extraB, fillB, key, r)
+	oa, badA := c07Run(g, wireA, extraA, fillA, key, r, false)
+	ob, badB := c07Run(g, wireB, extraB, fillB, key, r, r.Bool())
 	detail := func() map[string]interface{} {
 		return map[string]interface{}{
 			"getter": g.name, "value_len": length, "value_hex": core.Hex(value), "tid_hex": core.Hex(tid[:]),
